@@ -3,7 +3,7 @@
    Gallina model of inferModality / assignUnsetModalities / SetModalityTypeDef /
    AddMissingModalities (Infer.v) and of the checks (WF.v). *)
 Require Import Grits.Base Grits.ModeDefs Grits.Modes Grits.STypes Grits.Infer Grits.WF.
-Require Import Grits.spec.WFSpec Grits.spec.ModeSpec Grits.proofs.WFProofs Grits.proofs.InferProofs.
+Require Import Grits.spec.WFSpec Grits.spec.ModeSpec Grits.proofs.WFProofs Grits.proofs.InferProofs Grits.proofs.InferCorrect.
 Require Import Coq.Sorting.Permutation.
 
 (* never hangs, never panics: the fuel Infer.v hands in is enough *)
@@ -67,11 +67,20 @@ Theorem annotation_word_roundtrip : forall m t, proper m = true ->
   mode_of_string (mode_short m) = m /\ convert (Some (mode_short m)) t = to_sty m t.
 Proof. exact annotation_word_roundtrip_proof. Qed.
 
-(* the declarative assignment (spec/ModeSpec.v): proved half *)
-Theorem infer_correct_partial : forall D0 d,
-  (infer_mode D0 (td_body d) <> Unset -> Fixes D0 (td_body d) (td_mode (with_mode D0 d))) /\
-  (infer_mode D0 (td_body d) = Unset -> td_mode (with_mode D0 d) = Rep).
-Proof. exact infer_correct_partial_proof. Qed.
+(* correct: the mode recorded for every definition is its declarative mode (spec/ModeSpec.v): the
+   mode a component of its body fixes, replicable exactly when no component fixes any; same for
+   annotation types *)
+Theorem infer_correct : forall D0 R, set_modality_typedefs D0 = Ok R ->
+  Forall2 (fun d0 d => td_name d = td_name d0 /\ HasMode D0 (td_body d0) (td_mode d)) D0 R.
+Proof. exact infer_correct_result_proof. Qed.
+
+Theorem infer_correct_ann : forall D t t',
+  add_missing D t = Ok t' -> exists m, HasMode D t m /\ t' = assign D m t.
+Proof. exact infer_correct_ann_proof. Qed.
+
+(* completeness of the depth-first search under its used-labels cut-off *)
+Theorem infer_complete : forall D t, infer_mode D t = Unset -> forall k, ~ Fixes D t k.
+Proof. exact infer_complete_proof. Qed.
 
 Theorem infer_hypotheses_satisfiable :
   set_modality_typedefs (conv ex_src) = Ok ex_res /\ sanity_typedefs ex_res = Ok None.
@@ -89,5 +98,7 @@ Print Assumptions infer_perm.
 Print Assumptions infer_annotation_stable.
 Print Assumptions ann_annotation_stable.
 Print Assumptions annotation_word_roundtrip.
-Print Assumptions infer_correct_partial.
+Print Assumptions infer_correct.
+Print Assumptions infer_correct_ann.
+Print Assumptions infer_complete.
 Print Assumptions infer_hypotheses_satisfiable.
